@@ -115,6 +115,9 @@ class SymExec:
                and len(n.args) == 2 and not n.keywords and 'map' not in env:
                 # map(f, X) is (f(x) for x in X)
                 it = self.subst(n.args[1], env)
+                if isinstance(it, (ast.Tuple, ast.List)) and len(it.elts) <= 8 and not any(isinstance(x, ast.Starred) for x in it.elts):
+                    f_ = self.subst(n.args[0], env)
+                    return ast.List(elts=[simplify(ast.Call(func=f_, args=[x], keywords=[])) for x in it.elts], ctx=ast.Load())
                 p_ = Path(dict(env), ())
                 tgt = ast.Name(id='_m%d' % self._nloops, ctx=ast.Store())
                 self._bind_loop(tgt, it, p_)
@@ -162,6 +165,8 @@ class SymExec:
                     hp_ = self.helper_paths(it, env)
                     if hp_ is not None and len(hp_) == 1 and not hp_[0][1]:
                         it = hp_[0][0]
+                if _never_iterates(it):
+                    return ast.List(elts=[], ctx=ast.Load())
                 if isinstance(it, ast.Call) and isinstance(it.func, ast.Name) and it.func.id == 'range' and not it.keywords and \
                    1 <= len(it.args) <= 2 and all(isinstance(a_, ast.Constant) and isinstance(a_.value, int) and
                                                   not isinstance(a_.value, bool) for a_ in it.args) and \
@@ -1080,6 +1085,10 @@ class SymExec:
                         its = [(self.subst(st.iter, p.env), p)]
                     it = its[0][0]
                 loop_txt = norm(it)
+                if _never_iterates(it):
+                    p0 = p.fork()
+                    p0.conds = p0.conds + (('loop-skipped', loop_txt),)
+                    return [p0]
                 p2 = p.fork()
                 for n in ast.walk(st.target):
                     if isinstance(n, ast.Name):
@@ -1309,6 +1318,18 @@ def _subst_inner(sx, n, env2):
     return new
 
 
+def _never_iterates(it):
+    """an iterable that is known to be empty: [] / () / zip(..., [], ...) / enumerate([])"""
+    if isinstance(it, (ast.List, ast.Tuple)) and not it.elts:
+        return True
+    if isinstance(it, ast.Call) and isinstance(it.func, ast.Name) and not it.keywords:
+        if it.func.id == 'zip':
+            return any(_never_iterates(a) for a in it.args)
+        if it.func.id in ('enumerate', 'reversed', 'iter', 'list', 'tuple', 'sorted') and it.args:
+            return _never_iterates(it.args[0])
+    return False
+
+
 def _literal_items(it):
     """enumerate / zip / reversed of literal sequences, as the literal sequence of their items"""
     def lit(x):
@@ -1462,6 +1483,24 @@ def _stdlib_algebra(n):
                             args=list(f.args[1:]), keywords=list(f.keywords))
         if nm == 'partial' and f.args:
             return ast.Call(func=f.args[0], args=list(f.args[1:]) + list(n.args), keywords=list(f.keywords) + list(n.keywords))
+    # f(*[a, b]) -> f(a, b): a literal sequence spread over the arguments
+    if any(isinstance(a, ast.Starred) and isinstance(a.value, (ast.List, ast.Tuple)) and
+           not any(isinstance(x, ast.Starred) for x in a.value.elts) for a in n.args):
+        args = []
+        for a in n.args:
+            if isinstance(a, ast.Starred) and isinstance(a.value, (ast.List, ast.Tuple)) and \
+               not any(isinstance(x, ast.Starred) for x in a.value.elts):
+                args += list(a.value.elts)
+            else:
+                args.append(a)
+        return ast.Call(func=f, args=args, keywords=list(n.keywords))
+    if isinstance(f, ast.Name) and f.id in ('tuple', 'list') and len(n.args) == 1 and not n.keywords and \
+       isinstance(n.args[0], (ast.List, ast.Tuple)) and not any(isinstance(x, ast.Starred) for x in n.args[0].elts):
+        return (ast.Tuple if f.id == 'tuple' else ast.List)(elts=list(n.args[0].elts), ctx=ast.Load())
+    if isinstance(f, ast.Name) and f.id == 'zip' and len(n.args) >= 2 and not n.keywords and \
+       all(isinstance(a, (ast.List, ast.Tuple)) and not any(isinstance(x, ast.Starred) for x in a.elts) for a in n.args) and \
+       len({len(a.elts) for a in n.args}) == 1 and len(n.args[0].elts) <= 8:
+        return ast.Tuple(elts=[ast.Tuple(elts=list(r_), ctx=ast.Load()) for r_ in zip(*[a.elts for a in n.args])], ctx=ast.Load())
     if isinstance(f, ast.Attribute) and f.attr == '__mod__' and len(n.args) == 1 and not n.keywords:
         return ast.BinOp(left=f.value, op=ast.Mod(), right=n.args[0])
     if isinstance(f, ast.Attribute) and f.attr == '__getitem__' and len(n.args) == 1 and not n.keywords:
@@ -1478,6 +1517,12 @@ def _stdlib_algebra(n):
         return ast.List(elts=elts, ctx=ast.Load())
     if nm == 'from_iterable' and (dotted(f) or '').endswith('chain.from_iterable') and len(n.args) == 1 and not n.keywords:
         a = n.args[0]
+        if _is_each(a) and isinstance(a.args[0], (ast.List, ast.Tuple)):
+            # for every x of IT all entries of [e1(x), e2(x), *more(x)]: kept entry by entry, each inside "each of IT"
+            return ast.List(elts=[ast.Starred(value=ast.Call(func=ast.Name(id='_each', ctx=ast.Load()),
+                                                             args=[x.value if isinstance(x, ast.Starred) else x, a.args[1]],
+                                                             keywords=[]), ctx=ast.Load())
+                                  for x in a.args[0].elts], ctx=ast.Load())
         if _is_each(a) and not isinstance(a.args[0], (ast.List, ast.Tuple)):
             # every element of every E(x), x in IT: nested each = flattened iteration
             k = ast.Name(id='_k%d' % next(_FRESH_K), ctx=ast.Load())
@@ -1502,6 +1547,15 @@ def simplify(e):
         r_ = _stdlib_algebra(n)
         if r_ is not None:
             return simplify(r_)
+        if _is_each(n) and _is_each(n.args[0]) and isinstance(n.args[0].args[1], (ast.List, ast.Tuple)) and \
+           isinstance(n.args[0].args[0], ast.Subscript) and isinstance(n.args[0].args[0].slice, ast.Name) and \
+           n.args[0].args[0].slice.id.startswith('_k') and norm(n.args[0].args[0].value) == norm(n.args[0].args[1]):
+            # for every x of IT every entry of the literal [e1(x), e2(x), ...] (flattened): entry by entry
+            lst = n.args[0].args[1]
+            return ast.List(elts=[ast.Starred(value=ast.Call(func=ast.Name(id='_each', ctx=ast.Load()),
+                                                             args=[x.value if isinstance(x, ast.Starred) else x, n.args[1]],
+                                                             keywords=[]), ctx=ast.Load())
+                                  for x in lst.elts], ctx=ast.Load())
         if isinstance(n, ast.Call) and isinstance(n.func, ast.Name) and n.func.id == 'getattr' and len(n.args) == 2 \
            and not n.keywords and isinstance(n.args[1], ast.Constant) and isinstance(n.args[1].value, str) and \
            n.args[1].value.isidentifier():
@@ -1916,6 +1970,8 @@ def line_exprs(path, with_iter=False):
                 e = e.value
         out.append((e, st, it))
     for c, st in path.calls:
+        if not isinstance(c, ast.Call):
+            continue
         if isinstance(c.func, ast.Attribute) and c.func.attr in ('append', 'extend') and len(c.args) == 1:
             a0 = c.args[0]
             if c.func.attr == 'extend' and isinstance(a0, (ast.List, ast.Tuple)):
